@@ -73,7 +73,7 @@ Inductive frame :=
 | FTsOut (T : nat) (k : Z) (b : list op) (lic : Z)
 (* ConcurrentTaskSet::schedule / schedulePlaced *)
 | FCsOut (T : nat) (k : Z) (b : list op) (skip placed : bool)
-| FCsCanc (T : nat) (k : Z) (b : list op) (skip placed : bool)
+| FCsCanc (T : nat) (k : Z) (b : list op) (skip placed second : bool)   (* second: the canceled() test of the second inline fallback *)
 | FCsPool (T : nat) (k : Z) (b : list op) (skip placed : bool)
 (* raw functor call by the scheduling function *)
 | FRawPt (T : nat) (k : Z) (b : list op) (site : Z) (lic : Z) (g : bool)
@@ -121,7 +121,7 @@ Definition wstage_site (st : wstage) : Z :=
 Definition site_idx (c : nat -> tcfg) (f : frame) : Z * nat :=
   match f with
   | FStart => (0, O)
-  | FTsCanc T _ _ | FCsCanc T _ _ _ _ | FBulkCanc T _ _ _ _ _ => (1, T)
+  | FTsCanc T _ _ | FCsCanc T _ _ _ _ _ | FBulkCanc T _ _ _ _ _ => (1, T)
   | FTsOut T _ _ _ => (2, T)
   | FCsOut T _ _ _ placed => (if placed then 7 else 4, T)
   | FRawPt T _ _ site _ _ => (site, T)
@@ -261,17 +261,17 @@ Definition step_top (s : shared) (th : thread) (f : frame) (rest : list frame) (
       else ok s (FPkgInc T k b 0 :: rest)
   (* ---- ConcurrentTaskSet::schedule / schedulePlaced *)
   | FCsOut T k b skip placed =>
-      if cts_threshold placed (nthr s) (tlf (cfg s T)) <? outst (sets s T) then ok s (FCsCanc T k b skip placed :: rest)
+      if cts_threshold placed (nthr s) (tlf (cfg s T)) <? outst (sets s T) then ok s (FCsCanc T k b skip placed false :: rest)
       else ok s (FCsPool T k b skip placed :: rest)
-  | FCsCanc T k b skip placed =>
-      if negb (canc (sets s T)) && can_inline th rest then ok s (FRawPt T k b (if placed then 8 else 5) c true :: rest)
+  | FCsCanc T k b skip placed second =>
+      if second then
+        if canc (sets s T) || negb (can_inline th rest) then ok s (FPkgInc T k b (if placed then 2 else 1) :: rest)
+        else ok s (FRawPt T k b (if placed then 9 else 6) c true :: rest)
+      else if negb (canc (sets s T)) && can_inline th rest then ok s (FRawPt T k b (if placed then 8 else 5) c true :: rest)
       else ok s (FCsPool T k b skip placed :: rest)
   | FCsPool T k b skip placed =>
-      let how := if placed then 2 else 1 in
-      if negb skip && dec_overloaded recursive (wr s) (nthr s) (plf s) (prlf s) then
-        if can_inline th rest then ok s (FRawPt T k b (if placed then 9 else 6) 0 true :: rest)
-        else ok s (FPkgInc T k b how :: rest)
-      else ok s (FPkgInc T k b how :: rest)
+      if negb skip && dec_overloaded recursive (wr s) (nthr s) (plf s) (prlf s) then ok s (FCsCanc T k b skip placed true :: rest)
+      else ok s (FPkgInc T k b (if placed then 2 else 1) :: rest)
   | FRawPt T k b _ _ g => okl (set_led s k (LRaw T)) (FBody b :: FRawRun T k g :: rest) [(t_b, k, c)]
   | FRawRun T k _ => okl (set_led s k (LDone T)) rest [(t_e, k, c)]
   (* ---- packageTask and the hand-over *)
